@@ -35,6 +35,40 @@ pub fn run(rep: &mut Report) {
                 .flat_map(|i| i.parsed.iter().map(|p| p.0.clone()))
                 .any(|k| !seen.insert(k))
         };
+        // a worker that dies while holding an input: whatever the schedule, success (exit 0) is
+        // never reported for a report that lacks an input
+        for _ in 0..2 {
+            let threads = *rng.pick(&[1usize, 2, 3, 4, 8]);
+            let victim = rng.below(k as u64) as usize;
+            let mut args: Vec<String> = if as_dir { vec!["data".to_string()] } else { inputs.iter().map(|i| i.name.clone()).collect() };
+            rng.shuffle(&mut args);
+            let perturb = if rng.chance(1, 2) { None } else { Some(rng.next() % 100000) };
+            let out = run_grcov(&RunCfg {
+                dir: &dir,
+                args: args.clone(),
+                threads,
+                perturb,
+                fault: Some(format!("panic:{}", inputs[victim].id)),
+                limit: Duration::from_secs(60),
+                extra: vec!["-t".into(), "lcov".into(), "--branch".into(), "--no-demangle".into()],
+            });
+            rep.case(&format!("{} {} {:?} {:?} dies {}", set, threads, args, perturb, victim), threads >= 2);
+            rep.count("lost_input.runs");
+            rep.count(&format!("lost_input.exit={}", match out.exit { Some(0) => "0", Some(_) => "nonzero", None => "timeout" }));
+            let case = json!({"op": "pipeline-lost-input", "set": set, "threads": threads, "args": args, "perturb": perturb, "dies_on": inputs[victim].name,
+                "inputs": inputs.iter().map(|i| json!({"name": i.name, "hex": hex(&i.bytes)})).collect::<Vec<_>>(), "as_dir": as_dir});
+            match out.exit {
+                None => rep.fail("oracle", None, "grcov did not terminate within 60 s after a worker died".into(), case),
+                Some(0) => {
+                    let got = decode_lcov_report(&out.stdout).map(|m| show_map(&m)).unwrap_or_default();
+                    if got != want {
+                        rep.fail("oracle", None, "grcov exited with status 0 although an input was lost with the worker that held it: the report is not the aggregate of all inputs".into(),
+                            json!({"case": case, "report": got, "aggregate": want}));
+                    }
+                }
+                Some(_) => {}
+            }
+        }
         for r in 0..runs_per_set {
             let threads = *rng.pick(&[1usize, 2, 2, 3, 4, 8]);
             let mut args: Vec<String> = if as_dir {
